@@ -210,7 +210,7 @@ func (c *loopClient) PostCall(e *Engine, st *State, call *ast.CallExpr, callee *
 	if kind == "" {
 		return nil
 	}
-	switch callee.Name() {
+	switch fnName(callee) {
 	case "next":
 		return c.bump(st, 1)
 	case "prev":
@@ -319,7 +319,7 @@ func (c *loopClient) SplitAssign(e *Engine, st *State, lhs, rhs []ast.Expr, _ as
 		return nil
 	}
 	callee := Callee(e.Info, call)
-	if cursorOf(callee) == "" || callee.Name() != "next" {
+	if cursorOf(callee) == "" || fnName(callee) != "next" {
 		return nil
 	}
 	first := c.firstRune == "" && cursorOf(callee) == "scanner"
@@ -530,9 +530,9 @@ func ruleC12Loops(p *Program, r *Run) {
 				if f == nil || cursorOf(f) != "scanner" {
 					return true
 				}
-				if f.Name() == "prev" {
+				if fnName(f) == "prev" {
 					backs = true
-				} else if backs && f.Name() != "next" {
+				} else if backs && fnName(f) != "next" {
 					entry[f] = cc.List[0]
 				}
 				return true
@@ -552,7 +552,7 @@ func ruleC12Loops(p *Program, r *Run) {
 		changed := false
 		for _, u := range units {
 			fobj := FuncObj(u.pkg, u.fd)
-			if cursorOf(fobj) == "" || fobj.Name() == "next" || fobj.Name() == "prev" || fobj.Name() == "setPos" {
+			if cursorOf(fobj) == "" || fnName(fobj) == "next" || fnName(fobj) == "prev" || fnName(fobj) == "setPos" {
 				continue
 			}
 			c := &loopClient{w: w, pkg: u.pkg, fd: u.fd, fn: FuncName(u.pkg, u.fd), loops: map[ast.Stmt]int{}}
@@ -647,7 +647,7 @@ func reviewedLoop(p *Program, pkg *packages.Package, fd *ast.FuncDecl, l *ast.Fo
 	}
 	// reviewed: the inner loop of exprBinaryTrail re-reads one token, gives it back and recurses;
 	// progress follows from precedence2 > precedence1 >= the callee's minimum (C07/assoc checks exactly these facts)
-	if fd.Name.Name == "exprBinaryTrail" {
+	if declName(fd) == "exprBinaryTrail" {
 		self := FuncObj(pkg, fd)
 		hasSelf, inner := false, false
 		ast.Inspect(l.Body, func(n ast.Node) bool {
@@ -693,7 +693,7 @@ func (c *cursorClient) PostCall(e *Engine, st *State, call *ast.CallExpr, callee
 	if !k.OK {
 		return nil
 	}
-	switch callee.Name() {
+	switch fnName(callee) {
 	case "next":
 		return st.WithExt("lastop:"+k.Key, "next")
 	case "prev":
@@ -704,7 +704,7 @@ func (c *cursorClient) PostCall(e *Engine, st *State, call *ast.CallExpr, callee
 }
 
 func (c *cursorClient) PreCall(e *Engine, st *State, call *ast.CallExpr, callee *types.Func) *State {
-	if cursorOf(callee) != "parser" || callee.Name() != "prev" {
+	if cursorOf(callee) != "parser" || fnName(callee) != "prev" {
 		return nil
 	}
 	sel := ast.Unparen(call.Fun).(*ast.SelectorExpr)
@@ -713,7 +713,7 @@ func (c *cursorClient) PreCall(e *Engine, st *State, call *ast.CallExpr, callee 
 	idx := 0
 	ast.Inspect(e.Func.Body, func(x ast.Node) bool {
 		if cc, ok := x.(*ast.CallExpr); ok {
-			if f := Callee(e.Info, cc); cursorOf(f) == "parser" && f.Name() == "prev" {
+			if f := Callee(e.Info, cc); cursorOf(f) == "parser" && fnName(f) == "prev" {
 				n++
 				if cc == call {
 					idx = n
@@ -738,7 +738,7 @@ func ruleC12Cursor(p *Program, r *Run) {
 		uses := false
 		ast.Inspect(fd.Body, func(n ast.Node) bool {
 			if call, ok := n.(*ast.CallExpr); ok {
-				if f := Callee(info, call); cursorOf(f) == "parser" && f.Name() == "prev" {
+				if f := Callee(info, call); cursorOf(f) == "parser" && fnName(f) == "prev" {
 					uses = true
 				}
 			}
@@ -759,7 +759,7 @@ func ruleC12Cursor(p *Program, r *Run) {
 	}
 	// every store to parser.pos outside next/prev restores a position saved earlier in the same function
 	for _, fd := range AllFuncs(pkg) {
-		if fd.Recv == nil || recvTypeName(fd.Recv.List[0].Type) != "parser" || fd.Name.Name == "next" || fd.Name.Name == "prev" {
+		if fd.Recv == nil || recvTypeName(fd.Recv.List[0].Type) != "parser" || declName(fd) == "next" || declName(fd) == "prev" {
 			continue
 		}
 		ast.Inspect(fd.Body, func(n ast.Node) bool {
@@ -903,7 +903,7 @@ func ruleC12Recursion(p *Program, r *Run) {
 	}
 	// the self call of exprBinaryTrail on the same cursor happens after its own first token was consumed
 	for fn, es := range edges {
-		if fn.Name() != "exprBinaryTrail" {
+		if fnName(fn) != "exprBinaryTrail" {
 			continue
 		}
 		for i := range es {
